@@ -52,6 +52,7 @@ type Run struct {
 	Cancelled       bool
 	FinalSettled    bool
 	FinalH, FinalV  uint64
+	FinalBlocked    int // SPI calls still inside their gate at final quiescence (consumer calls that wait on their context only)
 	ShutdownOK      bool
 	ShutdownTook    time.Duration
 	Inconclusive    int
@@ -100,6 +101,7 @@ func Execute(c Case) *Run {
 			r.FinalSettled = h.Settle(opDeadline)
 		}
 		r.FinalH, r.FinalV = h.HV()
+		r.FinalBlocked = len(h.Gates.Blocked())
 		r.cancel()
 	}
 	return r
